@@ -193,7 +193,7 @@ func TestFlateWriterReset(t *testing.T) {
 		recT := tx.NewRec()
 		twin := wsflate.NewWriter(recT, ctlT.ctor)
 
-		if rapid.IntRange(0, 99).Draw(t, "h2.fail?") < 15 {
+		if rapid.IntRange(0, 99).Draw(t, "h2.fail?") >= 85 {
 			k := rapid.IntRange(0, 3).Draw(t, "h2.failat")
 			rec2.FailAt, recT.FailAt = k, k
 		}
